@@ -149,7 +149,19 @@ impl<'a, 'b, 'o> SemGen<'a, 'b, 'o> {
           rules.push(RuleM { name: p.name.clone(), params: vec![], alt: true, body: Body::Grp(ent) });
         }
       } else {
-        let ty = if i == 0 { self.root_ty(d) } else { self.ty(d) };
+        let mut ty = if i == 0 { self.root_ty(d) } else { self.ty(d) };
+        // recursion through a tag: `name = <leaf> / #6.n(name)` (well-founded: the tag consumes a nesting level)
+        if self.o.cbor && self.o.recursion && p.params.is_empty() && self.t.chance(1, 10) {
+          let leafish = match &ty.0[0].t2 {
+            Ty2::Lit(_) => true,
+            Ty2::Name { name, args } => args.is_empty() && crate::sem::PRELUDE_CORE.contains(&name.as_str()),
+            _ => false,
+          };
+          if leafish {
+            let n = *self.t.pick(&[99u64, 2, 24, 1234]);
+            ty.0.push(Ty1::plain(Ty2::Tag { num: Some(TagNum::Lit(n, n.to_string())), ty: Ty::name(&p.name) }));
+          }
+        }
         rules.push(RuleM { name: p.name.clone(), params: p.params.clone(), alt: false, body: Body::Ty(ty) });
         if self.o.increments && p.params.is_empty() && self.t.chance(1, 6) {
           let ty = self.ty(d.saturating_sub(1));
